@@ -204,7 +204,7 @@ static int test_fuchs (const uint8 *data, char *t, int s)
 	PW_REQUEST_DATA (s, k + 200);
 #endif
 
-	pw_read_title(NULL, t, 0);
+	pw_read_title(data, t, 10);
 
 	return 0;
 }
